@@ -103,7 +103,7 @@ impl<D: DiffHook> Replace<D> {
     /*@*/     requires old(self).core(), !old(self).rst().fin,
     /*@*/     ensures
     /*@*/         final(self).hist_() == old(self).hist_(), final(self).rst0_() == old(self).rst0_(), final(self).rel0_() == old(self).rel0_(),
-    /*@*/         hook_frame(old(self).inner(), final(self).inner(), res),
+    /*@*/         hook_frame(old(self).inner(), final(self).inner(), res), final(self).inner().fobs() == old(self).inner().fobs(),
     /*@*/         res.is_ok() ==> final(self).core() && final(self).p_eq() is None
     /*@*/             && final(self).p_del() == old(self).p_del() && final(self).p_ins() == old(self).p_ins()
     /*@*/             && (old(self).p_eq() is Some ==> final(self).xs().last == 1)
@@ -139,7 +139,7 @@ impl<D: DiffHook> Replace<D> {
     /*@*/         old(self).rst().lvl >= 1 ==> old(self).rst().po <= old(self).rst().oc && old(self).rst().pn <= old(self).rst().nc,
     /*@*/     ensures
     /*@*/         final(self).hist_() == old(self).hist_(), final(self).rst0_() == old(self).rst0_(), final(self).rel0_() == old(self).rel0_(),
-    /*@*/         hook_frame(old(self).inner(), final(self).inner(), res),
+    /*@*/         hook_frame(old(self).inner(), final(self).inner(), res), final(self).inner().fobs() == old(self).inner().fobs(),
     /*@*/         res.is_ok() ==> final(self).core() && final(self).p_del() is None && final(self).p_ins() is None && final(self).p_eq() == old(self).p_eq()
     /*@*/             && ((old(self).p_del() is Some || old(self).p_ins() is Some) ==> final(self).xs().last == 2)
     /*@*/             && ((old(self).p_del() is None && old(self).p_ins() is None) ==> final(self).em_() == old(self).em_()),
@@ -228,6 +228,7 @@ impl<D: DiffHook> DiffHook for Replace<D> {
     /*@*/ /// `replace` on the Replace adapter (a pass-through that does not flush pending deletes/inserts) is outside
     /*@*/ /// the verified envelope: no verified caller can call it
     /*@*/ closed spec fn accepts_replace(&self) -> bool { false }
+    /*@*/ #[verifier::prophetic] open spec fn fobs(&self) -> Obs<Self::Error> { self.inner().fobs() }
 
     fn equal(&mut self, old_index: usize, new_index: usize, len: usize) -> (res: Result<(), D::Error>)
     {
